@@ -22,6 +22,40 @@ TABLE = {
             "(networkx reachability vs independently computed chains).",
             "Lean 4 proof (induction over operation lists) + model/implementation correspondence", "DESIGN.md 7 (C16)",
             "Hypothesis 'every operation acts on at least one mode' is explicit (open finding C16-empty-mode-list)."),
+    "C08": (True,
+            "Theorems (Props/C08.lean) for every symbolic argument and EVERY iteration order of the symbol set: the "
+            "transform's function applied to the measurement values of the listed symbols in the listed order equals the "
+            "value of the written expression; the listed symbols are exactly the registers written, each once; register "
+            "numbers are those of the symbols in the same order; an argument is wrapped iff it mentions a register, plain "
+            "values stay plain. Correspondence and oracle: func(values in regrefs order) vs the written formula on the "
+            "real RegRefTransform objects.",
+            "Lean 4 proof (induction over expressions, permutation lemmas) + correspondence", "DESIGN.md 7 (C08)",
+            "SymPy's simplification and lambdify are a contract boundary (registers that cancel identically are outside "
+            "the property and not generated)."),
+    "C12": (True,
+            "Theorems (Props/C12.lean): the outcome of a load and the tables it leaves do not depend on the tables it "
+            "starts from; every load of every finite history has its pristine-process outcome (induction on the "
+            "history); a successful load leaves empty tables; plus the negation for the pre-repair mechanism from a "
+            "concrete witness. Oracle: histories in one interpreter vs forked pristine children; id()-scan for shared "
+            "mutable objects (sharing is not carried by the functional model).",
+            "Lean 4 proof (state threaded explicitly; induction over histories) + correspondence", "DESIGN.md 7 (C12)",
+            "'Share no mutable state' is decided by the harness only."),
+    "C13": (True,
+            "Theorems (Props/C13.lean): each read-only operation, modelled as returning the receiver as the operation "
+            "leaves it, returns the receiver unchanged; lifted to every finite sequence by induction; serialisation "
+            "before = after; negation for the pre-repair to_DiGraph from a concrete witness. Partial: independence of "
+            "instances is aliasing between Python objects, decided by the harness (mutate-and-compare sequences) only.",
+            "Lean 4 proof (induction over operation sequences) + mutate-and-compare harness", "DESIGN.md 7 (C13)",
+            "Second sentence of the property (instance independence) is not carried by the functional model."),
+    "C19": (True,
+            "Theorems (Props/C19.lean) quantified over all iteration orders of the sets involved: the outcome of a load "
+            "is independent of the order (include call-site mode maps go through a sort; proved via permutation "
+            "invariance of sorting and lifted through statements, loops, items, includes of any depth); register "
+            "transforms list the same registers and stay paired with their function under every order; the serialiser "
+            "model takes no order; negation for the pre-repair brace insertion. Oracle: every script loaded and "
+            "serialised under 8/32 values of PYTHONHASHSEED in fresh interpreters.",
+            "Lean 4 proof (permutation invariance) + hash-seed sweep", "DESIGN.md 7 (C19)",
+            "CPython's hashing itself is modelled as an arbitrary permutation of each set."),
 }
 
 
